@@ -202,7 +202,7 @@ func nodeMethodNames(cx *Ctx) []string {
 // ruleC01Mgr: the variant table is complete and consistent.
 func ruleC01Mgr(cx *Ctx) {
 	const rule = "C01.mgr"
-	cx.R.Rule(rule, 40, "the manager has one case per reachable feature combination, create and fromPointer of a case name the same variant, a variant has exactly the fields of its feature letters, and for every method the body shape (feature body / constant / bare panic) is a function of the feature letters alone, with one feature body shared by all variants that have it")
+	cx.R.Rule(rule, 13, "the manager has one case per reachable feature combination, create and fromPointer of a case name the same variant, a variant has exactly the fields of its feature letters, and for every method the body shape (feature body / constant / bare panic) is a function of the feature letters alone, with one feature body shared by all variants that have it")
 	vs, cases := variantsOf(cx, rule)
 	if vs == nil {
 		return
@@ -322,7 +322,7 @@ func splitByFeatures(a, b []string) bool {
 // ruleC12Bound: the expiry / freshness predicates have the same boundary in every variant that has the feature.
 func ruleC12Bound(cx *Ctx) {
 	const rule = "C12.bound"
-	cx.R.Rule(rule, 24, "in every node variant with expiration HasExpired(now) is expiresAt <= now (else constant false); with refresh IsFresh(now) is alive && refreshableAt > now (else constant true); the deadline accessors read/write the variant's own atomic fields")
+	cx.R.Rule(rule, 8, "in every node variant with expiration HasExpired(now) is expiresAt <= now (else constant false); with refresh IsFresh(now) is alive && refreshableAt > now (else constant true); the deadline accessors read/write the variant's own atomic fields")
 	vs, cases := variantsOf(cx, rule)
 	if vs == nil {
 		return
@@ -357,7 +357,7 @@ func ruleC12Bound(cx *Ctx) {
 				if f != nil {
 					allInstrs(f, func(in ssa.Instruction) {
 						if isStdMethod(in, "sync/atomic", "Int64", op) {
-							if fv := recvField(in); fv != nil && fv.Name() == "expiresAt" {
+							if fv := recvField(in); fv != nil && fname(fv) == "expiresAt" {
 								okm = true
 							}
 						}
@@ -393,7 +393,7 @@ func ruleC12Bound(cx *Ctx) {
 				if f != nil {
 					allInstrs(f, func(in ssa.Instruction) {
 						if isStdMethod(in, "sync/atomic", "Int64", op) {
-							if fv := recvField(in); fv != nil && fv.Name() == "refreshableAt" {
+							if fv := recvField(in); fv != nil && fname(fv) == "refreshableAt" {
 								okm = true
 							}
 						}
@@ -418,7 +418,7 @@ func trunc(s string, n int) string {
 // fields are atomic; link and queue fields are plain and therefore covered by C05.lockctx.
 func ruleC02Immut(cx *Ctx) {
 	const rule = "C02.immut"
-	cx.R.Rule(rule, 24, "key, value and weight of every node variant are stored only in its constructor; state and deadlines are sync/atomic typed")
+	cx.R.Rule(rule, 8, "key, value and weight of every node variant are stored only in its constructor; state and deadlines are sync/atomic typed")
 	vs, cases := variantsOf(cx, rule)
 	if vs == nil {
 		return
@@ -430,7 +430,7 @@ func ruleC02Immut(cx *Ctx) {
 		}
 		for i := 0; i < v.st.NumFields(); i++ {
 			f := v.st.Field(i)
-			switch f.Name() {
+			switch fname(f) {
 			case "key", "value", "weight":
 				bad := ""
 				for _, fn := range cx.P.ModuleFuncs() {
@@ -440,10 +440,10 @@ func ruleC02Immut(cx *Ctx) {
 						}
 					})
 				}
-				cx.R.Check(bad == "", rule, "node."+v.name, "field "+f.Name()+" immutable", "-", "written only by the constructor "+bad)
+				cx.R.Check(bad == "", rule, "node."+v.name, "field "+fname(f)+" immutable", "-", "written only by the constructor "+bad)
 			case "state", "expiresAt", "refreshableAt":
 				tn := namedTypeName(f.Type())
-				cx.R.Check(strings.HasPrefix(f.Type().String(), "sync/atomic."), rule, "node."+v.name, "field "+f.Name()+" atomic", "-", "concurrently accessed field is sync/atomic typed ("+tn+")")
+				cx.R.Check(strings.HasPrefix(f.Type().String(), "sync/atomic."), rule, "node."+v.name, "field "+fname(f)+" atomic", "-", "concurrently accessed field is sync/atomic typed ("+tn+")")
 			}
 		}
 	}
@@ -452,7 +452,7 @@ func ruleC02Immut(cx *Ctx) {
 // ruleC12Sites: who writes deadlines.
 func ruleC12Sites(cx *Ctx) {
 	const rule = "C12.sites"
-	cx.R.Rule(rule, 4, "deadline setters of nodes are invoked only by the known computation sites; xmath.SaturatedAdd clamps on overflow")
+	cx.R.Rule(rule, 1, "deadline setters of nodes are invoked only by the known computation sites; xmath.SaturatedAdd clamps on overflow")
 	allowed := map[string]string{
 		"(*cache).setExpiresAfterRead":     "read hook / SetExpiresAfter (CAS on the current deadline)",
 		"(*cache).calcExpiresAtAfterWrite": "create/update hook on a fresh node",
@@ -511,7 +511,7 @@ func ruleC12Sites(cx *Ctx) {
 // ruleC12Apply: the deadline stores are conditional only on the documented no-op tests.
 func ruleC12Apply(cx *Ctx) {
 	const rule = "C12.apply"
-	cx.R.Rule(rule, 4, "a computed deadline is stored unless the duration is non-positive or unchanged: the only tests guarding a deadline store are configuration flags, duration sign, duration change, predecessor nil/expiry and load-record fields - no other condition may suppress the update")
+	cx.R.Rule(rule, 1, "a computed deadline is stored unless the duration is non-positive or unchanged: the only tests guarding a deadline store are configuration flags, duration sign, duration change, predecessor nil/expiry and load-record fields - no other condition may suppress the update")
 	for _, fn := range cx.P.FuncsOfPkg("") {
 		allInstrs(fn, func(in ssa.Instruction) {
 			n := invokeName(in)
@@ -534,7 +534,7 @@ func allowedDeadlineGuard(c ssa.Value) bool {
 	case *ssa.UnOp:
 		// flag or record-field load
 		if f := fieldOf(x); f != nil {
-			switch f.Name() {
+			switch fname(f) {
 			case "withExpiration", "withRefresh", "isRefresh", "isNotFound":
 				return true
 			}
